@@ -71,7 +71,7 @@ public:
     bool fetchUnits(const UnitsPtr &importUnits, const std::string &baseFile, History &history);
 
     bool checkForImportCycles(const ImportSourcePtr &importSource, const History &history, const HistoryEpochPtr &h, const std::string &action);
-    bool checkUnitsForCycles(const UnitsPtr &units, History &history);
+    bool checkUnitsForCycles(const UnitsPtr &units, History &history, std::vector<UnitsPtr> &localHistory);
     bool checkComponentForCycles(const ComponentPtr &component, History &history);
 
     /**
@@ -147,20 +147,25 @@ std::string Importer::ImporterImpl::resolvingUrl(const ImportSourcePtr &importSo
     return modelUrl(model);
 }
 
-bool Importer::ImporterImpl::checkUnitsForCycles(const UnitsPtr &units, History &history)
+bool Importer::ImporterImpl::checkUnitsForCycles(const UnitsPtr &units, History &history, std::vector<UnitsPtr> &localHistory)
 {
     // Even if these units are not imported, they might have imported children.
     if (!units->isImport()) {
+        localHistory.push_back(units);
         for (size_t index = 0; index < units->unitCount(); ++index) {
             std::string ref = units->unitAttributeReference(index);
             // If the child units are imported, check them too.
             auto model = owningModel(units);
             if (model->hasUnits(ref)) {
-                if (checkUnitsForCycles(model->units(ref), history)) {
+                // Child units that are being checked already are not imported, they are defined in terms of themselves.
+                auto childUnits = model->units(ref);
+                if ((std::find(localHistory.begin(), localHistory.end(), childUnits) == localHistory.end())
+                    && checkUnitsForCycles(childUnits, history, localHistory)) {
                     return true;
                 }
             }
         }
+        localHistory.pop_back();
         return false;
     }
 
@@ -195,7 +200,7 @@ bool Importer::ImporterImpl::checkUnitsForCycles(const UnitsPtr &units, History 
         return true;
     }
 
-    return checkUnitsForCycles(importedUnits, history);
+    return checkUnitsForCycles(importedUnits, history, localHistory);
 }
 
 bool Importer::ImporterImpl::checkComponentForCycles(const ComponentPtr &component, History &history)
@@ -240,10 +245,11 @@ bool Importer::ImporterImpl::checkComponentForCycles(const ComponentPtr &compone
 bool Importer::ImporterImpl::hasImportIssues(const ModelPtr &model)
 {
     History history;
+    std::vector<UnitsPtr> localHistory;
 
     for (const UnitsPtr &units : getImportedUnits(model)) {
         history.clear();
-        if (checkUnitsForCycles(units, history)) {
+        if (checkUnitsForCycles(units, history, localHistory)) {
             return true;
         }
     }
